@@ -33,6 +33,7 @@ import (
 )
 
 var ErrBridgeNotFound = errors.New("bridge not found")
+var ErrBridgeListTrailingData = errors.New("bridge list: unexpected data after the JSON object of a line")
 
 func NewBridgeListHolder() BridgeListHolderFileBased {
 	return &bridgeListHolder{}
@@ -77,6 +78,10 @@ func (h *bridgeListHolder) LoadBridgeInfo(reader io.Reader) error {
 		decoder.DisallowUnknownFields()
 		if err := decoder.Decode(&bridgeInfo); err != nil {
 			return err
+		}
+		// One record per line: Decode stops after the first JSON value.
+		if _, err := decoder.Token(); err != io.EOF {
+			return ErrBridgeListTrailingData
 		}
 
 		var bridgeFingerprint bridgefingerprint.Fingerprint
